@@ -381,6 +381,32 @@ func RunC12(c *core.Ctx) {
 			}
 		}
 	}
+	// length-changing modifications: a string that is not 32 characters is no key at all (whatever the cipher): every
+	// truncation, every deletion of one character, appended and inserted characters - of keys without expiry, expiring
+	// in the future and already expired - must grant NOTHING (no listed finding explains a grant here)
+	var lengthMods int64
+	for v := 1; v <= 3; v++ {
+		b := brokers[v]
+		for si, exp := range []string{"none", "future", "past"} {
+			ks, _ := Mint(b, Key{Decrypts: true, Contract: "own", SigOK: true, MasterOK: true, Perms: []string{"r", "w"}, Expiry: exp, Target: Chan{W: []string{"a"}}}, uint16(900+si))
+			var mods []string
+			for n := 0; n < 32; n++ {
+				mods = append(mods, ks[:n], ks[:n]+ks[n+1:], ks[:n]+"A"+ks[n:])
+			}
+			mods = append(mods, ks+"A", ks+"AA", ks+ks[:4], ks+"=", ks+"==", "A"+ks, ks[1:]+"A"+"A")
+			for _, mod := range mods {
+				if len(mod) == 32 {
+					continue
+				}
+				lengthMods++
+				if after := grants(b, mod, probes); len(after) > 0 {
+					replay, _ := json.Marshal(map[string]any{"e": "length-tamper", "license": v, "original_key": ks, "expiry": exp, "modified_key": mod, "granted": keys(after)})
+					c.Violation(fmt.Sprintf("license v%d: the %d-character string %q (made from an issued key expiring %q) is accepted as a key and grants %v", v, len(mod), mod, exp, keys(after)), replay)
+				}
+			}
+		}
+	}
+	c.Set("length_changing_modifications", lengthMods)
 	// concurrent use: a modified key presented while other connections present issued (stronger) keys. Whatever the
 	// broker shares between authorizations (cipher state, decrypt buffers, memoized keys), the grants of a string are
 	// those it has when presented alone.
